@@ -144,7 +144,7 @@ def describe(c):
     s = "StreamTokenizer(min_length=%d, max_length=%d, max_continuous_silence=%d" % (c["min_length"], c["max_length"], c["mcs"])
     if c.get("init_min") or c.get("init_max_silence"):
         s += ", init_min=%d, init_max_silence=%d" % (c["init_min"], c["init_max_silence"])
-    return s + ", mode=%d) on '%s'%s" % (c["mode"], stream_str(c["valid"]), {True: " (frames are falsy objects)", "mixed": " (every other frame, starting with the first, is a falsy empty object)", "none-validator": " (validator answers True or None)"}.get(c.get("falsy"), ""))
+    return s + ", mode=%d) on '%s'%s" % (c["mode"], stream_str(c["valid"]), {True: " (frames are falsy objects)", "odd positions": " (every other frame, starting with the second, is a falsy empty object)", "mixed": " (every other frame, starting with the first, is a falsy empty object)", "none-validator": " (validator answers True or None)"}.get(c.get("falsy"), ""))
 
 
 def replay_tokens(c, delivery="list"):
